@@ -57,7 +57,10 @@ func (gw *eventBasedGateway) run(ctx context.Context, sender tracing.ISenderHand
 				terminationChannels := make(map[schema.IdRef]chan bool)
 				for _, sequenceFlow := range sequences {
 					if idPtr, present := sequenceFlow.Id(); present {
-						terminationChannels[*idPtr] = make(chan bool)
+						// capacity 1: the withdrawal is left for the alternative's token and never
+						// waits for it (a token that fired at nearly the same time has lost the
+						// compare-and-swap below, completed, and will not read its channel any more)
+						terminationChannels[*idPtr] = make(chan bool, 1)
 					} else {
 						err := errors.NotFoundError{
 							Expected: sequenceFlow,
@@ -75,13 +78,15 @@ func (gw *eventBasedGateway) run(ctx context.Context, sender tracing.ISenderHand
 						// only the first one is to flow
 						if atomic.CompareAndSwapInt32(&first, 0, 1) {
 							gw.tracer.Send(DeterminationMadeTrace{Node: gw.element})
+							// The table is never written after it was built: a token that looks its
+							// channel up late still finds it, with the withdrawal in it. The winner's
+							// own channel is left open and empty.
 							for terminationCandidateId, ch := range terminationChannels {
 								if sequenceFlowId != nil && terminationCandidateId != *sequenceFlowId {
 									ch <- true
+									close(ch)
 								}
-								close(ch)
 							}
-							terminationChannels = make(map[schema.IdRef]chan bool)
 							return action
 						} else {
 							return completeAction{}
